@@ -7,6 +7,9 @@ for p in $(python3 -c "import json;print(' '.join(c['property_id'] for c in json
   echo "$out" | tail -1 | sed "s/^/[rc=$rc] /"
   [ $rc -ne 0 ] && echo "$out" | grep -v "^KNOWN" | tail -5
 done
+st=$(tools/selftest.sh 2>&1); src=$?
+echo "[rc=$src] engine self-test: $(echo "$st" | grep -c '^ok') ok, $(echo "$st" | grep -c '^FAIL') failed"
+[ $src -ne 0 ] && echo "$st" | grep -v '^ok'
 python3-vt - <<'PY'
 import json,jsonschema,glob
 sch=json.load(open('/root/.vp/EVIDENCE.schema.json'))
